@@ -162,6 +162,10 @@ def modeOrder (dimorder : Option (List Nat)) (d : Nat) : List Nat :=
   | none => List.range d
   | some o => o
 
+/-- `np.any(ranks > np.array(shape))` for a rank vector with one entry per mode. -/
+def ranksExceed (ranks shape : List Nat) : Bool :=
+  (List.range shape.length).any fun k => decide (shape.getD k 0 < ranks.getD k 0)
+
 /-- `hosvd(input_tensor, tol, verbosity=0, dimorder, sequential, ranks)`, returning the Tucker
 tensor and the per-mode record. -/
 def hosvdRun (ops : NumOps α) (eigh : Nat → Mat α → List α × Mat α) (X : Dense α) (tol : α)
@@ -170,6 +174,8 @@ def hosvdRun (ops : NumOps α) (eigh : Nat → Mat α → List α × Mat α) (X 
   let d := X.shape.length
   let ranks0 := reqRanks ranks d
   if ranks0.length != d then .error .reject
+  -- `if np.any(ranks < 0) or np.any(ranks > shape): raise` (b0b6c00; negative entries: `hosvdRunI`)
+  else if ranksExceed ranks0 X.shape then .error .reject
   else
     let order := modeOrder dimorder d
     if !isPermOf order d then .error .reject
@@ -190,6 +196,18 @@ def hosvd (ops : NumOps α) (eigh : Nat → Mat α → List α × Mat α) (X : D
     (dimorder : Option (List Nat)) (sequential : Bool) (ranks : Option (List Nat)) :
     Except Reject (Ttensor α) :=
   (hosvdRun ops eigh X tol dimorder sequential ranks).map (·.1)
+
+/-- The rank vector as Python integers: a negative entry is rejected by the range test
+(`np.any(ranks < 0)`, b0b6c00), whose other half is in `hosvdRun`.  (Both the length test that
+precedes it and the range test raise, so their relative order is not observable.) -/
+def hosvdRunI (ops : NumOps α) (eigh : Nat → Mat α → List α × Mat α) (X : Dense α) (tol : α)
+    (dimorder : Option (List Nat)) (sequential : Bool) (ranks : Option (List Int)) :
+    Except Reject (Ttensor α × List (ModeRec α)) :=
+  match ranks with
+  | none => hosvdRun ops eigh X tol dimorder sequential none
+  | some r =>
+    if r.any (fun x => decide (x < 0)) then .error .reject
+    else hosvdRun ops eigh X tol dimorder sequential (some (r.map Int.toNat))
 
 end alg
 end Tk
